@@ -80,10 +80,127 @@ def mutants2_of(fn):
     return out
 
 
+COPIERS = ("list", "dict", "set", "sorted", "tuple", "deepcopy", "copy")
+
+
+def _parents(fn):
+    par = {}
+    for n in ast.walk(fn):
+        for fld, val in ast.iter_fields(n):
+            if isinstance(val, list):
+                for k, c in enumerate(val):
+                    if isinstance(c, ast.AST):
+                        par[id(c)] = (n, fld, k)
+            elif isinstance(val, ast.AST):
+                par[id(val)] = (n, fld, None)
+    return par
+
+
+def mutants3_of(fn):
+    """Third operator family (statement level): an initialisation hoisted out of / sunk into a loop, an alias instead of a
+    copy, break <-> continue, slice and range bounds moved by one, loops that skip the first / last element, dropped
+    comprehension filters, dropped stores into containers / attributes, `+=` -> `=`, two adjacent statements swapped."""
+    nodes = list(ast.walk(fn))
+    par = _parents(fn)
+    out = []
+    for i, n in enumerate(nodes):
+        ln = getattr(n, "lineno", 0)
+        if isinstance(n, (ast.For, ast.While)):
+            if n.body and isinstance(n.body[0], ast.Assign) and len(n.body) > 1 and isinstance(n.body[0].targets[0], ast.Name):
+                out.append((f"{ln}: hoist '{ast.unparse(n.body[0])[:40]}' out of the loop", i, "HOIST"))
+            pn = par.get(id(n))
+            if pn and pn[2] and isinstance(getattr(pn[0], pn[1])[pn[2] - 1], ast.Assign) and isinstance(getattr(pn[0], pn[1])[pn[2] - 1].targets[0], ast.Name):
+                out.append((f"{ln}: sink '{ast.unparse(getattr(pn[0], pn[1])[pn[2] - 1])[:40]}' into the loop", i, "SINK"))
+            if isinstance(n, ast.For) and not isinstance(n.iter, (ast.Call,)) or (isinstance(n, ast.For) and isinstance(n.iter, ast.Call) and isinstance(n.iter.func, ast.Attribute) and n.iter.func.attr in ("items", "keys", "values")):
+                pass
+            if isinstance(n, ast.For) and isinstance(n.iter, (ast.Name, ast.Attribute, ast.Subscript)):
+                out.append((f"{ln}: loop skips the first element", i, "SKIPFIRST"))
+                out.append((f"{ln}: loop skips the last element", i, "SKIPLAST"))
+        elif isinstance(n, ast.Call) and len(n.args) == 1 and not n.keywords and ((isinstance(n.func, ast.Name) and n.func.id in COPIERS) or (isinstance(n.func, ast.Attribute) and n.func.attr in ("deepcopy", "copy") and isinstance(n.func.value, ast.Name) and n.func.value.id == "copy")) and isinstance(n.args[0], (ast.Name, ast.Attribute, ast.Subscript)):
+            out.append((f"{ln}: alias instead of {ast.unparse(n)[:40]}", i, "ALIAS"))
+        elif isinstance(n, ast.Call) and isinstance(n.func, ast.Attribute) and n.func.attr == "copy" and not n.args:
+            out.append((f"{ln}: alias instead of {ast.unparse(n)[:40]}", i, "ALIASM"))
+        elif isinstance(n, ast.Break):
+            out.append((f"{ln}: break -> continue", i, "B2C"))
+        elif isinstance(n, ast.Continue):
+            out.append((f"{ln}: continue -> break", i, "C2B"))
+        elif isinstance(n, ast.Slice):
+            if n.upper is not None:
+                out.append((f"{ln}: slice upper -1", i, lambda x: setattr(x, "upper", ast.BinOp(left=x.upper, op=ast.Sub(), right=ast.Constant(1)))))
+                out.append((f"{ln}: slice upper +1", i, lambda x: setattr(x, "upper", ast.BinOp(left=x.upper, op=ast.Add(), right=ast.Constant(1)))))
+            if n.lower is not None:
+                out.append((f"{ln}: slice lower +1", i, lambda x: setattr(x, "lower", ast.BinOp(left=x.lower, op=ast.Add(), right=ast.Constant(1)))))
+            if n.lower is None and n.upper is None and n.step is None:
+                pass
+        elif isinstance(n, ast.Call) and isinstance(n.func, ast.Name) and n.func.id == "range" and 1 <= len(n.args) <= 2:
+            out.append((f"{ln}: range upper -1", i, lambda x: x.args.__setitem__(len(x.args) - 1, ast.BinOp(left=x.args[-1], op=ast.Sub(), right=ast.Constant(1)))))
+            out.append((f"{ln}: range upper +1", i, lambda x: x.args.__setitem__(len(x.args) - 1, ast.BinOp(left=x.args[-1], op=ast.Add(), right=ast.Constant(1)))))
+            if len(n.args) == 1:
+                out.append((f"{ln}: range starts at 1", i, lambda x: x.args.insert(0, ast.Constant(1))))
+        elif isinstance(n, ast.comprehension) and n.ifs:
+            out.append((f"{ln}: comprehension filter dropped", i, lambda x: setattr(x, "ifs", [])))
+        elif isinstance(n, ast.Assign) and isinstance(n.targets[0], (ast.Subscript, ast.Attribute)):
+            out.append((f"{ln}: store dropped: {ast.unparse(n.targets[0])[:40]}", i, "DELETE"))
+        elif isinstance(n, ast.AugAssign):
+            out.append((f"{ln}: {ast.unparse(n)[:30]}: augmented -> plain assignment", i, "AUG2PLAIN"))
+        if isinstance(n, ast.stmt):
+            pn = par.get(id(n))
+            if pn and pn[2] is not None and pn[2] + 1 < len(getattr(pn[0], pn[1])):
+                nxt = getattr(pn[0], pn[1])[pn[2] + 1]
+                simple = (ast.Assign, ast.AugAssign, ast.Expr, ast.AnnAssign)
+                if isinstance(n, simple) and isinstance(nxt, simple) and not _is_log(n) and not _is_log(nxt) and not _docstring(n) and not _docstring(nxt):
+                    out.append((f"{ln}: swap with next statement", i, "SWAPNEXT"))
+    return out
+
+
+def _is_log(st):
+    return isinstance(st, ast.Expr) and isinstance(st.value, ast.Call) and isinstance(st.value.func, ast.Attribute) and st.value.func.attr in ("debug", "info", "warning", "error")
+
+
+def _docstring(st):
+    return isinstance(st, ast.Expr) and isinstance(st.value, ast.Constant)
+
+
+def apply3(fn, node, how):
+    par = _parents(fn)
+    pn = par.get(id(node))
+    if how == "HOIST":
+        first = node.body.pop(0)
+        lst = getattr(pn[0], pn[1])
+        lst.insert(pn[2], first)
+    elif how == "SINK":
+        lst = getattr(pn[0], pn[1])
+        prev = lst.pop(pn[2] - 1)
+        node.body.insert(0, prev)
+    elif how in ("SKIPFIRST", "SKIPLAST"):
+        it = node.iter
+        node.iter = ast.Subscript(value=ast.Call(func=ast.Name(id="list", ctx=ast.Load()), args=[it], keywords=[]),
+                                  slice=ast.Slice(lower=ast.Constant(1), upper=None) if how == "SKIPFIRST" else ast.Slice(lower=None, upper=ast.UnaryOp(op=ast.USub(), operand=ast.Constant(1))), ctx=ast.Load())
+    elif how in ("ALIAS", "ALIASM"):
+        repl = node.args[0] if how == "ALIAS" else node.func.value
+        if pn[2] is None:
+            setattr(pn[0], pn[1], repl)
+        else:
+            getattr(pn[0], pn[1])[pn[2]] = repl
+    elif how in ("B2C", "C2B"):
+        getattr(pn[0], pn[1])[pn[2]] = ast.Continue() if how == "B2C" else ast.Break()
+    elif how == "AUG2PLAIN":
+        getattr(pn[0], pn[1])[pn[2]] = ast.Assign(targets=[node.target], value=node.value)
+        node.target.ctx = ast.Store()
+    elif how == "SWAPNEXT":
+        lst = getattr(pn[0], pn[1])
+        lst[pn[2]], lst[pn[2] + 1] = lst[pn[2] + 1], lst[pn[2]]
+    else:
+        return False
+    return True
+
+
 def mutants_of(fn):
     """Yield (description, mutator(node_copy)) for one function; mutators are located by a pre-order index."""
     if OPS["set"] == 2:
         return mutants2_of(fn)
+    if OPS["set"] == 3:
+        return mutants3_of(fn)
     nodes = list(ast.walk(fn))
     out = []
     REL = {ast.Lt: [ast.LtE, ast.GtE], ast.LtE: [ast.Lt], ast.Gt: [ast.GtE, ast.LtE], ast.GtE: [ast.Gt], ast.Eq: [ast.NotEq], ast.NotEq: [ast.Eq],
@@ -172,7 +289,9 @@ def apply_mutant(m, tmp):
     for desc, idx, how in cands:
         if desc == m["desc"] and idx == m["idx"]:
             node = list(ast.walk(fn))[idx]
-            if how == "DELETE":
+            if isinstance(how, str) and apply3(fn, node, how):
+                pass
+            elif how == "DELETE":
                 _Deleter(node).visit(fn)
             elif how == "UNGUARD":
                 class U(ast.NodeTransformer):
